@@ -349,8 +349,33 @@ def run_replay_file(module, path):
     return None
 
 
+class _QuietPipe(object):
+    """stdout that survives a reader which stops reading (`vcheck ... | head -1`): the verdict is the exit status"""
+    def __init__(self, stream):
+        self._stream, self._dead = stream, False
+
+    def write(self, text):
+        if not self._dead:
+            try:
+                return self._stream.write(text)
+            except BrokenPipeError:
+                self._dead = True
+        return len(text)
+
+    def flush(self):
+        if not self._dead:
+            try:
+                self._stream.flush()
+            except BrokenPipeError:
+                self._dead = True
+
+    def __getattr__(self, name):
+        return getattr(self._stream, name)
+
+
 def main(argv=None):
     import argparse
+    sys.stdout = _QuietPipe(sys.stdout)
     parser = argparse.ArgumentParser(prog="vcheck")
     parser.add_argument("prop")
     parser.add_argument("--tier", default=os.environ.get("VERIF_TIER", "quick"), choices=["quick", "thorough"])
